@@ -12,7 +12,8 @@ from gen.frags import nla_reads, chic_reads, delivery_coordinate, partition_of
 
 ID = 'C07'
 RULE = ('all multisets of <=n fragment letters, delivered in coordinate order (all orders among equal coordinates), x '
-        'check_eject_every in {None,0..n} x pooling {0,1} x cache size {100,1000} x class {NlaIII, CHIC r=0, CHIC r=15}; '
+        'check_eject_every in {None,0..n} x pooling {0,1} x cache size {100,1000} x class {NlaIII, CHIC r=0, CHIC r=15}; the same for the plain Fragment/Molecule '
+        'classes over single-end reads that share starts or ends (a molecule can grow at its end); '
         'non-trivial = a run in which a molecule was ejected mid-stream while an older molecule stayed in the buffer '
         '(non-prefix pop); states = distinct (word, configuration) pairs, transitions = fragments pushed')
 ASSUMPTIONS = [
@@ -35,14 +36,39 @@ LETTERS = [
 ]
 
 
+# plain Fragment/Molecule (the iterator's default classes): single-end reads matched by equal start OR equal end,
+# so a molecule can grow at its end and a later-starting fragment can still join it through its end coordinate
+PLAIN_LETTERS = [
+    (0, 10, 1), (0, 41, 1), (0, 49, 1), (10, 49, 1), (41, 49, 1), (45, 49, 1), (62, 100, 1),
+    (5, 15, 2), (41, 62, 2), (41, 80, 2),
+]
+PLAIN_BASE = 1000
+
+
 def bounds(tier):
     return {'max_fragments': 5 if tier == 'quick' else 6, 'letters': LETTERS, 'sites': S, 'cache_sizes': [100, 1000],
             'classes': ['nla', 'chic0', 'chic15'] if tier == 'thorough' else ['nla', 'chic15'],
-            'eject_every': 'None,0..n', 'pooling': [0, 1]}
+            'eject_every': 'None,0..n', 'pooling': [0, 1], 'plain_letters(start,end,cell)': PLAIN_LETTERS,
+            'plain_max_fragments': 5 if tier == 'quick' else 6}
+
+
+def build_plain(word):
+    from gen.frags import HDR
+    from gen.reads import make_read
+    out = []
+    for i, li in enumerate(word):
+        s, e, cell = PLAIN_LETTERS[li]
+        n = e - s
+        r = make_read(HDR, f'f{i}', 'A' * n, 'chr1', PLAIN_BASE + s, f'{n}M', paired=False,
+                      tags={'SM': f'LIB_{cell}', 'RX': 'AAA', 'BC': 'ACGTACGT', 'bi': cell})
+        out.append([r, None])
+    return out
 
 
 def build(word, cls):
     """word: tuple of letter indices in delivery order -> list of [R1,R2] (fresh reads)"""
+    if cls == 'plain':
+        return build_plain(word)
     out = []
     for i, li in enumerate(word):
         site, length, cell, umi, rev = LETTERS[li]
@@ -64,11 +90,12 @@ def deliv(li):
     return _DELIV[li]
 
 
-def orders(multiset):
+def orders(multiset, kind='site'):
     """all delivery orders of the multiset: sorted by (contig, delivery coordinate); every order among ties"""
     groups = {}
     for li in multiset:
-        groups.setdefault(deliv(li), []).append(li)
+        key = deliv(li) if kind == 'site' else ('chr1', PLAIN_LETTERS[li][0])
+        groups.setdefault(key, []).append(li)
     keys = sorted(groups)
     per = [sorted(set(itertools.permutations(groups[k]))) for k in keys]
     for combo in itertools.product(*per):
@@ -79,7 +106,11 @@ def run_iter(word, cls, e, pooling, cache):
     from singlecellmultiomics.molecule import MoleculeIterator, NlaIIIMolecule, CHICMolecule
     from singlecellmultiomics.fragment import NlaIIIFragment, CHICFragment
     reads = build(word, cls)
-    if cls == 'nla':
+    if cls == 'plain':
+        from singlecellmultiomics.molecule import Molecule
+        from singlecellmultiomics.fragment import Fragment
+        mc, fc, fargs = Molecule, Fragment, {'umi_hamming_distance': 0}
+    elif cls == 'nla':
         mc, fc, fargs = NlaIIIMolecule, NlaIIIFragment, {'umi_hamming_distance': 0}
     else:
         mc, fc = CHICMolecule, CHICFragment
@@ -102,14 +133,14 @@ def run_iter(word, cls, e, pooling, cache):
     return mols, consumed_at_yield
 
 
-def check_word(word, tier):
+def check_word(word, tier, kind='site'):
     viol = {}
     n = len(word)
     nruns = 0
     nonprefix = False
     ejected = False
     ref_parts = {}
-    for cls in bounds(tier)['classes']:
+    for cls in (bounds(tier)['classes'] if kind == 'site' else ['plain']):
         for pooling in (0, 1):
             base = None
             for cache in (100, 1000):
@@ -150,14 +181,20 @@ def shards(tier):
     for k in range(1, n + 1):
         ms.extend(itertools.combinations_with_replacement(range(len(LETTERS)), k))
     G = 16 if tier == 'quick' else 24
-    return [ms[i:i + G] for i in range(0, len(ms), G)]
+    out = [('site', ms[i:i + G]) for i in range(0, len(ms), G)]
+    pm = []
+    for k in range(1, bounds(tier)['plain_max_fragments'] + 1):
+        pm.extend(itertools.combinations_with_replacement(range(len(PLAIN_LETTERS)), k))
+    out += [('plain', pm[i:i + 3 * G]) for i in range(0, len(pm), 3 * G)]
+    return out
 
 
 def run_shard(shard, tier, acc):
-    for ms in shard:
-        for word in orders(ms):
-            viols, nruns, nonprefix, ejected = check_word(word, tier)
-            case = {'word': list(word)}
+    kind, mss = shard
+    for ms in mss:
+        for word in orders(ms, kind):
+            viols, nruns, nonprefix, ejected = check_word(word, tier, kind)
+            case = {'word': list(word), 'kind': kind}
             acc.case(case, transitions=nruns * len(word), execs=nruns, nontrivial=nonprefix, states=nruns,
                      outcome=f'n={len(word)},ejected={ejected},nonprefix={nonprefix}')
             for sig, d in viols:
@@ -166,4 +203,4 @@ def run_shard(shard, tier, acc):
 
 def replay(case):
     # the tier only selects the classes; replay with the widest set
-    return check_word(tuple(case['word']), 'thorough')[0]
+    return check_word(tuple(case['word']), 'thorough', case.get('kind', 'site'))[0]
